@@ -462,6 +462,8 @@ def run_project(root, mode, cfgs, timeout=600, tag=""):
 
 def make_cfgs(rng, pr, n, kind):
     lo = max(pr["min_version"], 6 if kind == "router" else 2)
+    if pr.get("repeat_bytes"):
+        lo = max(lo, 3)          # so that every project also runs with assemble_constants=True
     cfgs = []
     versions = list(range(lo, 11))
     rng.shuffle(versions)
@@ -471,7 +473,7 @@ def make_cfgs(rng, pr, n, kind):
         ann, hdr, conc = variants[i % len(variants)]
         fp = rng.choice([None, None, True, False]) if v >= 8 else rng.choice([None, False])
         cfgs.append({"kind": kind, "app": True if (pr["app_only"] or kind == "router") else rng.random() < 0.75, "version": v,
-                     "assemble_constants": v >= 3 and rng.random() < 0.3, "scratch_slots": rng.random() < 0.5,
+                     "assemble_constants": v >= 3 and (i % 2 == 1 or rng.random() < 0.2), "scratch_slots": rng.random() < 0.5,
                      "frame_pointers": fp, "teal_filename": rng.choice([None, "out.teal", "dir/approval.teal"]),
                      "annotate": ann, "headers": hdr, "concise": conc})
     return cfgs
@@ -495,6 +497,7 @@ def canon_slots(teal):
     return "\n".join(out)
 
 
+BYTES_RE = re.compile(r'^byte "(rb\d+)"$|^(?:bytec(?:_\d| \d+)|pushbytes 0x[0-9a-f]+) // "(rb\d+)"$')
 MARK_RE = re.compile(r"^(?:int|pushint) (\d+)(?:\s|$)|^intc(?:_\d| \d+) // (\d+)\s*$")
 BLANK_COMMENT = re.compile(r"^[ \t\r\x0b\x0c]+//")
 
@@ -574,6 +577,28 @@ def check_program(ck, model, root, pr, cfg, pm, pp, where, stats):
         else:
             seen.add(val)
     stats["_seen"] |= seen
+    # 4r. constants written on SEVERAL lines: every load site maps to one of the lines where the value was written
+    for i, tl in enumerate(lines):
+        key = None
+        m = MARK_RE.match(tl)
+        if m and (m.group(1) or m.group(2)) in pr.get("repeats", {}):
+            key = ("int", m.group(1) or m.group(2))
+            rel, written = pr["repeats"][key[1]]
+        else:
+            mb = BYTES_RE.match(tl)
+            if mb and (mb.group(1) or mb.group(2)) in pr.get("repeat_bytes", {}):
+                key = ("bytes", mb.group(1) or mb.group(2))
+                rel, written = pr["repeat_bytes"][key[1]]
+        if key is None or i >= len(pm["entries"]):
+            continue
+        e = pm["entries"][i]
+        stats["repeat_load_sites"] += 1
+        got = (os.path.normpath(e[2]) if e[2] else None, (e[3] + 1) if e[3] is not None else None)
+        stats["_rep"].setdefault(key, []).append(got[1] if got[0] == os.path.normpath(rel) else got)
+        if got[0] != os.path.normpath(rel) or got[1] not in written:
+            if not any(b[0].startswith("repeated constant") for b in bad):
+                bad.append(("repeated constant %s written on %s lines %s: the load on TEAL line %d `%s` is attributed to %s:%s" % (key[1], rel, written, i + 1, tl[:50], got[0], got[1]),
+                            {"value": key[1], "written": [rel, written], "attributed": list(got), "teal_line": i + 1, "assemble_constants": cfg["assemble_constants"]}, None))
     # 5. JSON decodes (Coq decoder) to the same associations
     j = json.loads(json.dumps(pm["json"]))
     if j.get("version") != 3 or "mappings" not in j:
@@ -661,7 +686,7 @@ def validate_projects(ck, model, tmp, thorough):
 def run_and_check(ck, model, projects):
     stats = {"projects": 0, "configs": 0, "programs": 0, "teal_lines": 0, "marker_lines": 0, "markers_expected": 0, "markers_expected_seen": 0,
              "json_decoded_by_coq": 0, "annotated_lines_tokenised": 0, "lines_not_on_wire": 0, "shape_theorem": 0, "shape_no_comment": 0,
-             "shape_other": 0, "teal_lines_not_clean": 0, "source_files": 0, "max_source_lines": 0, "compile_errors_both_modes": 0, "_seen": set()}
+             "shape_other": 0, "teal_lines_not_clean": 0, "source_files": 0, "max_source_lines": 0, "compile_errors_both_modes": 0, "repeat_load_sites": 0, "repeat_values": 0, "configs_assemble_constants": 0, "_seen": set(), "_rep": {}}
     findings = []    # (what, detail, known_id, root, pr, cfg)
     with concurrent.futures.ThreadPoolExecutor(max_workers=min(NPROC, 14)) as ex:
         # one FRESH interpreter per (project, configuration, mode): nothing but the feature gate differs
@@ -692,8 +717,10 @@ def run_and_check(ck, model, projects):
             continue
         for cfg, cm, cp in zip(cfgs, rm, rp):
             stats["configs"] += 1
+            stats["configs_assemble_constants"] += 1 if cfg["assemble_constants"] else 0
             ck.count(("project", os.path.basename(root), json.dumps(cfg, sort_keys=True)), nontrivial="error" not in cm)
             stats["_seen"] = set()
+            stats["_rep"] = {}
             if "error" in cm and "error" in cp:
                 if cm["error"][0] != cp["error"][0]:
                     findings.append(("compilation fails differently with (%s) and without (%s) the source map" % (cm["error"][0], cp["error"][0]), {"map": cm["error"], "plain": cp["error"]}, None, root, pr, cfg))
@@ -718,6 +745,14 @@ def run_and_check(ck, model, projects):
                 where = ["approval", "clear"][pi] if kind == "router" else "program"
                 for what, detail, kid in check_program(ck, model, root, pr, cfg, pm, pp, where, stats):
                     findings.append((what, detail, kid, root, pr, cfg))
+            # multiset of lines attributed to the load sites of a repeated constant = lines where it was written
+            for kind_, table in (("int", pr.get("repeats", {})), ("bytes", pr.get("repeat_bytes", {}))):
+                for v, (rel, written) in table.items():
+                    stats["repeat_values"] += 1
+                    got = stats["_rep"].get((kind_, v), [])
+                    if sorted(map(repr, got)) != sorted(map(repr, written)) and not any(f[3] == root and f[5] is cfg for f in findings):
+                        findings.append(("repeated constant %s written on %s lines %s: its load sites are attributed to lines %s (assemble_constants=%s)" % (v, rel, written, got, cfg["assemble_constants"]),
+                                         {"value": v, "written": [rel, written], "attributed_lines": got, "assemble_constants": cfg["assemble_constants"]}, None, root, pr, cfg))
             exp = {m for m, (rel, ln, e) in pr["markers"].items() if e}
             stats["markers_expected"] += len(exp)
             stats["markers_expected_seen"] += len(exp & stats["_seen"])
@@ -734,6 +769,7 @@ def run_and_check(ck, model, projects):
                            "cfg": ok["cfg"], "teal_lines": len(p0["teal"].split("\n")), "mappings_head": p0["json"]["mappings"][:60],
                            "annotated_head": (p0["annotated"] or "").split("\n")[1:3]}, limit=5)
     del stats["_seen"]
+    del stats["_rep"]
     return stats, findings
 
 
@@ -898,7 +934,8 @@ def report_findings(ck, findings, replay_known=False):
         reported += 1
         files = {rel: (t if len(t) < 200000 else t[:200000]) for rel, t in pr["files"].items()}
         ck.violation(what, {"kind": "project", "detail": detail, "cfg": cfg, "files": files, "markers": {str(k): v for k, v in pr["markers"].items()}, "project_kind": pr["kind"],
-                            "min_version": pr["min_version"], "app_only": pr["app_only"]})
+                            "min_version": pr["min_version"], "app_only": pr["app_only"],
+                            "repeats": pr.get("repeats", {}), "repeat_bytes": pr.get("repeat_bytes", {})})
 
 
 def replay(ck, path, tmp):
@@ -923,7 +960,8 @@ def replay(ck, path, tmp):
             ck.violation("R3 round trip fails on the real implementation", r)
     elif kind == "project":
         model = Model("c15")
-        pr = {"files": r["files"], "markers": {int(k): v for k, v in r["markers"].items()}, "kind": r["project_kind"], "min_version": r["min_version"], "app_only": r["app_only"]}
+        pr = {"files": r["files"], "markers": {int(k): v for k, v in r["markers"].items()}, "kind": r["project_kind"], "min_version": r["min_version"], "app_only": r["app_only"],
+              "repeats": r.get("repeats", {}), "repeat_bytes": r.get("repeat_bytes", {})}
         root = os.path.join(tmp, "replay")
         write_project(root, pr)
         stats, findings = run_and_check(ck, model, [(root, pr, [r["cfg"]], pr["kind"], {})])
